@@ -206,6 +206,8 @@ def verdict_case(draw, tier):
         "atol_ineq": draw(st.sampled_from([atol, atol2])),
         "via_settings": draw(st.booleans()),
         "defect": draw(defect_st(t, atol)),
+        # explicit-tolerance calls are made while the GLOBAL tolerance is something else (the explicit one is the only slack)
+        "global_atol": draw(st.one_of(st.none(), gen.log_uniform(1e-13, 1e-2))),
     }
 
 
@@ -251,18 +253,25 @@ def check_verdict(case, ctx):
             Settings.set_atol(1e-13)
         ctx.label("atol:settings")
     else:
-        v_eq = q.is_eq_constraint_satisfied(a_eq)
-        v_in = q.is_ineq_constraint_satisfied(a_in)
-        v_ph = q.is_physical(a_eq, a_in)
-        for nm in named_eq:
-            named[nm] = getattr(q, nm)(a_eq)
-        for nm in named_in:
-            named[nm] = getattr(q, nm)(a_in)
-        if t == "gate":
-            from quara.objects import gate as _G
+        g_atol = case.get("global_atol")
+        if g_atol is not None:
+            Settings.set_atol(float(g_atol))
+            ctx.label("global_atol:" + ("looser" if g_atol > max(a_eq, a_in) else "tighter" if g_atol < min(a_eq, a_in) else "between"))
+        try:
+            v_eq = q.is_eq_constraint_satisfied(a_eq)
+            v_in = q.is_ineq_constraint_satisfied(a_in)
+            v_ph = q.is_physical(a_eq, a_in)
+            for nm in named_eq:
+                named[nm] = getattr(q, nm)(a_eq)
+            for nm in named_in:
+                named[nm] = getattr(q, nm)(a_in)
+            if t == "gate":
+                from quara.objects import gate as _G
 
-            named["gate.is_tp()"] = _G.is_tp(c_sys, q.hs, a_eq)
-            named["gate.is_cp()"] = _G.is_cp(c_sys, q.hs, a_in)
+                named["gate.is_tp()"] = _G.is_tp(c_sys, q.hs, a_eq)
+                named["gate.is_cp()"] = _G.is_cp(c_sys, q.hs, a_in)
+        finally:
+            Settings.set_atol(1e-13)
         ctx.label("atol:explicit")
     for nm, v in named.items():
         want = v_eq if ("tp" in nm or "trace_one" in nm or "identity_sum" in nm) else v_in
